@@ -62,15 +62,28 @@ def host_settings(kind):
 
         names = ["monotonic", "perf_counter", "process_time"]
         saved = {n: getattr(time, n) for n in names + [n + "_ns" for n in names]}
+        fast = {}
+        for n in names:
+            fast[n] = (lambda r: lambda: r() * 3600.0)(saved[n])
+            fast[n + "_ns"] = (lambda r: lambda: r() * 3600)(saved[n + "_ns"])
+        # names the repository's modules bound with `from time import ...` at import time are rebound as well
+        rebound = []
+        for mname, mod in list(sys.modules.items()):
+            if mname.startswith("pyab_experiment") and mod is not None:
+                for attr, val in list(vars(mod).items()):
+                    for n, orig in saved.items():
+                        if val is orig:
+                            rebound.append((mod, attr, val))
+                            setattr(mod, attr, fast[n])
         try:
-            for n in names:
-                real, real_ns = saved[n], saved[n + "_ns"]
-                setattr(time, n, (lambda r: lambda: r() * 3600.0)(real))
-                setattr(time, n + "_ns", (lambda r: lambda: r() * 3600)(real_ns))
+            for n in saved:
+                setattr(time, n, fast[n])
             yield
         finally:
             for n, f in saved.items():
                 setattr(time, n, f)
+            for mod, attr, val in rebound:
+                setattr(mod, attr, val)
         return
     yield
 
